@@ -24,8 +24,9 @@ func init() {
 	core.Register(&core.Prop{
 		ID: "C19",
 		Modes: []core.ModeSpec{
-			{Name: "history", Weight: 3},
-			{Name: "equals", Weight: 2},
+			{Name: "history", Weight: 15},
+			{Name: "equals", Weight: 10},
+			{Name: "clients", Weight: 1},
 		},
 		Run:  run,
 		Enum: enum,
@@ -35,8 +36,11 @@ func init() {
 // the first five tags are the core alphabet (nil tag, empty tag, plain tags); the
 // rest widen it with region sub-tags of tags already present ("en-US" must not
 // read as "en"), script sub-tags, upper case, three-letter tags – and make
-// lists of up to 14 entries without a repeated tag possible
-var baseTags = []ap.LangRef{ap.NilLangRef, "en", "fr", "", "de", "en-US", "EN", "zh-Hans", "ast", "es", "it", "pt-BR", "nl", "ja"}
+// lists of up to 19 entries without a repeated tag possible
+var baseTags = []ap.LangRef{ap.NilLangRef, "en", "fr", "", "de", "en-US", "EN", "zh-Hans", "ast", "es", "it", "pt-BR", "nl", "ja",
+	// tags that are not well-formed BCP 47 but that applications do use as keys (POSIX locales, glibc
+	// modifiers, a wildcard, a long private tag, a blank): a LangRef is any string
+	"en_US", "sr@latin", "*", "x-private-extension", " "}
 
 // tags is the alphabet of the current run: baseTags, or – 1 run in 40, a "long" run – baseTags
 // plus 114 synthetic tags, so that lists of up to 128 entries without a repeated tag exist and a
@@ -178,6 +182,8 @@ func run(c *core.Ctx) {
 	switch c.Mode {
 	case "equals":
 		runEquals(c)
+	case "clients":
+		runClients(c)
 	default:
 		runHistory(c)
 	}
@@ -189,7 +195,27 @@ func runHistory(c *core.Ctx) {
 	nTags := 2 + t.Draw(len(tags)-1)
 	nTexts := 2 + t.Draw(len(texts)-1)
 	var n ap.NaturalLanguageValues
-	switch t.Draw(4) {
+	// bystanders: other lists alive at the same time, made the same way just before and just after
+	// the list under test. No call is ever made on them: they must read the same after every step.
+	var bystanders []ap.NaturalLanguageValues
+	switch t.Draw(5) {
+	case 4: // made by the library's constructors, among other lists made the same way
+		mk := func() ap.NaturalLanguageValues {
+			if t.Bool(1, 2) {
+				return ap.DefaultNaturalLanguageValue(string(drawText(t, nTexts)))
+			}
+			k := 1 + t.Draw(3)
+			vals := make([]ap.LangRefValue, k)
+			for i := range vals {
+				vals[i] = ap.LangRefValueNew(drawTag(t, nTags), string(drawText(t, nTexts)))
+			}
+			return ap.NaturalLanguageValuesNew(vals...)
+		}
+		bystanders = append(bystanders, mk())
+		n = mk()
+		bystanders = append(bystanders, mk(), mk())
+		c.Probe("constructor_made_lists")
+		c.Logf("init by constructor %s, bystanders %s %s %s", renderPairs(snapshot(n)), renderPairs(snapshot(bystanders[0])), renderPairs(snapshot(bystanders[1])), renderPairs(snapshot(bystanders[2])))
 	case 0: // nil list
 		c.Logf("init nil")
 	case 1:
@@ -223,6 +249,10 @@ func runHistory(c *core.Ctx) {
 		c.Logf("init literal+spare(%d) %s", spare, renderPairs(snapshot(n)))
 	}
 	model := snapshot(n)
+	var bystanderModels [][]pair
+	for _, b := range bystanders {
+		bystanderModels = append(bystanderModels, snapshot(b))
+	}
 	ts := &textSource{}
 	maxOps := 12
 	if c.Tier == "thorough" {
@@ -306,6 +336,11 @@ func runHistory(c *core.Ctx) {
 			}
 		}
 		// cross-invariants after every step: every tag of the alphabet reads as the model says
+		for bi, b := range bystanders {
+			if !c.Failed() && !pairsEqual(snapshot(b), bystanderModels[bi]) {
+				c.Fail("model", "C19/bystander-list-changed", "a call on one list changed another list on which no call was made: it held %s, now %s (the list under test: %s)", renderPairs(bystanderModels[bi]), renderPairs(snapshot(b)), renderPairs(snapshot(n)))
+			}
+		}
 		if !c.Failed() {
 			for _, tag := range tags[:nTags] {
 				checkGet(c, model, tag, n.Get(tag), "Get(after step)")
